@@ -30,7 +30,7 @@ HARNESSES = {
         params=dict(quick=dict(N=2, NE=2), thorough=dict(N=3, NE=2)), witnesses=["reordered", "in-order"],
         bound=dict(quick="graphs of 1..2 nodes / <=2 edges, one node may fail / be unsatisfied / output data, both collect_all values: failing indices, data outputs and gas do not depend on the order",
                    thorough="1..3 nodes"),
-        replay=dict(kind="check_graph", par_runs=10), timeout=dict(quick=900, thorough=3300), max_paths=dict(quick=400000, thorough=3000000)),
+        replay=dict(kind="check_graph", par_runs=10), timeout=dict(quick=900, thorough=3300), max_paths=dict(quick=400000, thorough=3000000), heavy=True),
     "solutions_any_order": dict(props=["C02"], crates=CRC, fn=_wrap(h_levels.set_level),
         params=dict(quick=dict(smax=3), thorough=dict(smax=4)), witnesses=["reordered", "in-order"],
         bound=dict(quick="check_set_predicates on 1..3 solutions (check_predicate uninterpreted: ok / data / fail, symbolic gas, writes to its cache): every execution order of the per-solution tasks",
